@@ -403,4 +403,60 @@ def vsizeK : List (Key × Val) → Nat
   | (_, v) :: vs => vsize v + vsizeK vs
 end
 
+/-! ### weight of a declared type: how many leaf conversions one value node can cost -/
+
+/-- does stage 2 / stage 3 of a union run in a context with preferences `m` (rule.py:383, 399) -/
+def stage2 (m : Mode) : Bool := !m.noLoss || !m.noCast
+def stage3 (m : Mode) : Bool := !m.noLoss && !m.noCast
+
+mutual
+/-- leaf conversions per value node under type `T` in a context with preferences `m`, as long as nothing below
+restarts the union stages (a data class does: it brings its own options, and is weighed on its own) -/
+def tyWt : Mode → Ty → Nat
+  | _, .leaf => 1
+  | _, .none => 0
+  | _, .data _ => 0
+  | m, .list t => tyWt m t
+  | m, .tuple t => tyWt m t
+  | m, .dict _ t => tyWt m t
+  | m, .union ts =>
+    (if stage2 m then tyWtL Mode.strict ts else 0) + (if stage3 m then tyWtL ⟨true, m.noCast⟩ ts else 0) + tyWtL m ts
+def tyWtL : Mode → List Ty → Nat
+  | _, [] => 0
+  | m, t :: ts => tyWt m t + tyWtL m ts
+end
+
+mutual
+/-- no data class anywhere inside the type -/
+def noData : Ty → Bool
+  | .leaf => true
+  | .none => true
+  | .data _ => false
+  | .list t => noData t
+  | .tuple t => noData t
+  | .dict _ t => noData t
+  | .union ts => noDataL ts
+def noDataL : List Ty → Bool
+  | [] => true
+  | t :: ts => noData t && noDataL ts
+end
+
+/-- the decidable region outside the known defect `union-retries-exponential`:
+no union of the type has a data class among (or inside) its alternatives -/
+def noDataUnderUnion : Ty → Bool
+  | .leaf => true
+  | .none => true
+  | .data _ => true
+  | .list t => noDataUnderUnion t
+  | .tuple t => noDataUnderUnion t
+  | .dict _ t => noDataUnderUnion t
+  | .union ts => noDataL ts
+
+/-- a declaration environment outside the known defect, with distinct field names per class, every field type
+weighing at most `B` -/
+def envOk (B : Nat) (E : Env) : Bool :=
+  E.all fun cd =>
+    cd.fields.all (fun ft => noDataUnderUnion ft.2 && decide (tyWt cd.mode ft.2 ≤ B)) &&
+    decide ((cd.fields.map Prod.fst).Nodup)
+
 end Utv.C18
